@@ -300,9 +300,15 @@ static int bufferConvArgs(MPT_INTERFACE(convertable) *val, MPT_TYPE(type) type, 
 		return MPT_ENUM(TypeArray);
 	}
 	if (type == 's') {
+		MPT_STRUCT(buffer) *buf = m->s._a._buf;
+		const void *cmd = (buf && m->s._off) ? buf + 1 : 0;
+		/* command must be terminated character data */
+		if (cmd
+		    && (buf->_content_traits != mpt_type_traits('c')
+		     || !memchr(cmd, 0, m->s._off))) {
+			return MPT_ERROR(BadType);
+		}
 		if (ptr) {
-			MPT_STRUCT(buffer) *buf = m->s._a._buf;
-			const void *cmd = (buf && m->s._off) ? buf + 1 : 0;
 			*((const void **) ptr) = cmd;
 		}
 		return MPT_ENUM(TypeIteratorPtr);
